@@ -218,8 +218,8 @@ def main():
             with open(path, "w") as f:
                 json.dump(v, f, indent=1, default=repr)
             print(f"  witness [{key}] {v['message']}")
-            print(f"    observed: {json.dumps(v['observed'], default=repr)[:500]}")
-            print(f"    expected: {json.dumps(v['expected'], default=repr)[:500]}")
+            print(f"    observed: {json.dumps(v['observed'], default=repr)[:300]}")
+            print(f"    expected: {json.dumps(v['expected'], default=repr)[:300]}")
             lines.append(f"VIOLATION property={pid} replay={os.path.relpath(path, HERE)}")
     for key, v in seen_known.items():
         print(f"KNOWN-FINDING: property={pid} {key}: {known_keys[key].get('what', '')}")
